@@ -56,24 +56,76 @@ fn range_tag(r: &Range, x: Decimal) -> &'static str {
 }
 
 fn emit_seq(em: &mut Emitter, stream: &'static str, vals: &[Decimal], extra: &[&str]) {
+    emit_seq_p(em, stream, vals, &[], extra)
+}
+
+/// serialise the summary with serde_json and deserialise it again: (restored value, it differs
+/// from the original or could not be (de)serialised)
+fn round_trip(s: &DataSetSummary) -> (DataSetSummary, bool) {
+    match serde_json::to_string(s)
+        .ok()
+        .and_then(|js| serde_json::from_str::<DataSetSummary>(&js).ok())
+    {
+        Some(back) => {
+            let changed = back != *s;
+            (back, changed)
+        }
+        None => (s.clone(), true),
+    }
+}
+
+/// `persist`: step numbers (0 = before the first update, k = after the k-th update) at which the
+/// summary is persisted and restored; the history continues on the restored value
+fn emit_seq_p(
+    em: &mut Emitter,
+    stream: &'static str,
+    vals: &[Decimal],
+    persist: &[usize],
+    extra: &[&str],
+) {
     let mut tags: Vec<String> = extra.iter().map(|s| s.to_string()).collect();
     let vv = vals.to_vec();
+    let pp = persist.to_vec();
     let res = catch(move || {
         let mut s = DataSetSummary::default();
         let o0 = obs_coq(&s);
         let mut os = vec![];
         let mut tg = vec![];
-        for v in &vv {
+        let mut changed = false;
+        if pp.contains(&0) {
+            let (back, ch) = round_trip(&s);
+            changed |= ch;
+            s = back;
+        }
+        for (i, v) in vv.iter().enumerate() {
             tg.push(range_tag(&s.dispersion.range, *v).to_string());
             s.update(*v);
             os.push(obs_coq(&s));
+            if pp.contains(&(i + 1)) {
+                let (back, ch) = round_trip(&s);
+                changed |= ch;
+                s = back;
+            }
         }
-        (o0, os, tg)
+        (o0, os, tg, changed)
     });
     let coq = match res {
-        Ok((o0, os, tg)) => {
+        Ok((o0, os, tg, changed)) => {
             tags.extend(tg);
-            format!("(CSeq {} {} {})", qlist(vals), o0, list(&os))
+            let inner = format!("(CSeq {} {} {})", qlist(vals), o0, list(&os));
+            if persist.is_empty() {
+                inner
+            } else {
+                if changed {
+                    tags.push("roundtrip_changed".into());
+                }
+                format!(
+                    "(CPersist {} {} {})",
+                    list(&persist.iter().map(|k| n(*k as u128)).collect::<Vec<_>>()),
+                    b(changed),
+                    inner
+                )
+            }
         }
         Err(_) => {
             tags.push("panic".into());
@@ -86,13 +138,25 @@ fn emit_seq(em: &mut Emitter, stream: &'static str, vals: &[Decimal], extra: &[&
         }
     };
     tags.push(format!("seq_len_{}", bucket(vals.len())));
+    if !persist.is_empty() {
+        tags.push("persist_restore".into());
+    }
     em.emit(Case {
         stream,
-        input: json!({"kind": "seq", "values": jlist(vals)}),
+        input: json!({"kind": "seq", "values": jlist(vals), "persist": persist}),
         coq,
         nontrivial: !vals.is_empty(),
         tags,
     });
+}
+
+/// persist points for a sequence of length n: none / after every step / a random subset
+fn gen_persist(r: &mut Rng, n: usize) -> Vec<usize> {
+    match r.below(4) {
+        0 | 1 => vec![],
+        2 => (0..=n).collect(),
+        _ => (0..=n).filter(|_| r.chance(1, 4)).collect(),
+    }
 }
 
 fn bucket(n: usize) -> &'static str {
@@ -320,7 +384,13 @@ fn emit_popvar(em: &mut Emitter, stream: &'static str, m: Decimal, c: Decimal) {
 
 fn exec_input(em: &mut Emitter, stream: &'static str, inp: &Value) {
     match inp["kind"].as_str().unwrap_or("") {
-        "seq" => emit_seq(em, stream, &from_jlist(&inp["values"]), &[]),
+        "seq" => {
+            let persist: Vec<usize> = inp["persist"]
+                .as_array()
+                .map(|a| a.iter().filter_map(|x| x.as_u64()).map(|x| x as usize).collect())
+                .unwrap_or_default();
+            emit_seq_p(em, stream, &from_jlist(&inp["values"]), &persist, &[])
+        }
         "perms" => emit_perms(em, stream, &from_jlist(&inp["values"])),
         "step" => emit_step(em, stream, &St::from_json(&inp["state"]), json_dec(&inp["x"])),
         "range" => emit_range(
@@ -574,6 +644,9 @@ fn table(em: &mut Emitter) {
     for l in named {
         let v: Vec<Decimal> = l.iter().map(|x| dec(*x, 1)).collect();
         emit_seq(em, "table", &v, &["named_dataset"]);
+        // the same with a persist/restore step after every prefix
+        let every: Vec<usize> = (0..=v.len()).collect();
+        emit_seq_p(em, "table", &v, &every, &["named_dataset"]);
         if v.len() <= 4 {
             emit_perms(em, "table", &v);
         }
@@ -597,7 +670,8 @@ fn main() {
             for _ in 0..n_seq {
                 let len = 1 + r.below(max_len) as usize;
                 let (v, fl) = gen_dataset(&mut r, len);
-                emit_seq(&mut em, "random", &v, &[fl]);
+                let persist = gen_persist(&mut r, v.len());
+                emit_seq_p(&mut em, "random", &v, &persist, &[fl]);
             }
             for _ in 0..n_long {
                 let len = 150 + r.below(51) as usize;
@@ -631,10 +705,12 @@ fn main() {
                         _ => gen_wide(&mut r),
                     });
                 }
-                emit_seq(&mut em, "adversarial", &v, &["adversarial_extremes"]);
+                let persist = gen_persist(&mut r, v.len());
+                emit_seq_p(&mut em, "adversarial", &v, &persist, &["adversarial_extremes"]);
                 let mut w = v.clone();
                 r.shuffle(&mut w);
-                emit_seq(&mut em, "adversarial", &w, &["adversarial_shuffled"]);
+                let persist = gen_persist(&mut r, w.len());
+                emit_seq_p(&mut em, "adversarial", &w, &persist, &["adversarial_shuffled"]);
             }
         }
         "exec" => {
